@@ -8,6 +8,7 @@ import (
 	"strconv"
 	"strings"
 
+	"github.com/wader/fq/internal/ansi"
 	"github.com/wader/fq/internal/asciiwriter"
 	"github.com/wader/fq/internal/columnwriter"
 	"github.com/wader/fq/internal/hexpairwriter"
@@ -331,7 +332,9 @@ func genWriters(o *hlib.Out, r *hlib.Rand, thorough bool) {
 	}
 	o.Stat("columnwriter_cases", nCols)
 
+	genColour(o, r, thorough)
 	// numbers
+	genDigits(o)
 	for _, base := range []int{2, 3, 5, 7, 8, 10, 16, 35, 36} {
 		for _, n := range interestingNumbers(r, base) {
 			runFmt(o, base, n, r.Bool(), r.Intn(12))
@@ -347,6 +350,156 @@ func genWriters(o *hlib.Out, r *hlib.Rand, thorough bool) {
 			runFmt(o, base, n, false, 2)
 		}
 	}
+}
+
+// runDigitsRLE: DigitsInBase(n, true, base) for EVERY n in [0, hi) as a run-length list n:v (value v
+// from n on); the driver checks every run against the integer digit count.
+func runDigitsRLE(o *hlib.Out, base int, hi int64) {
+	var sb strings.Builder
+	last := -1
+	for n := int64(0); n < hi; n++ {
+		v := mathx.DigitsInBase(n, true, base)
+		if v != last {
+			if sb.Len() > 0 {
+				sb.WriteByte(',')
+			}
+			fmt.Fprintf(&sb, "%d:%d", n, v)
+			last = v
+		}
+	}
+	o.Case(fmt.Sprintf("digitsrle %d %d", base, hi), sb.String())
+	o.Class(fmt.Sprintf("digitsrle %d %d", base, hi))
+	o.Stat("digits_exhaustive_values", int(hi))
+}
+
+func genDigits(o *hlib.Out) {
+	for base := 2; base <= 36; base++ {
+		runDigitsRLE(o, base, 1<<20)
+		// around every power of the base up to 2^63
+		p := int64(1)
+		for {
+			for d := int64(-2); d <= 2; d++ {
+				if n := p + d; n >= 0 {
+					runDigits(o, base, n)
+				}
+			}
+			if p > (1<<63-1)/int64(base) {
+				break
+			}
+			p *= int64(base)
+		}
+		runDigits(o, base, 1<<63-1)
+	}
+}
+
+// ---- colour: the real internal/ansi and the writers with a colouring formatter
+
+// fam 0: codes as short as fq's defaults (set and reset at most 5 bytes, a coloured ascii cell at most
+// 11 bytes — what asciiwriter's line buffer is sized for); fam 1: combined attributes (as
+// `-o byte_colors=0-255=red+underline` produces), longer than the buffer allows.
+func byteCode(fam int, b byte) ansi.Code {
+	if fam == 0 {
+		switch b % 3 {
+		case 0:
+			return ansi.MakeCode([]int{30 + int(b%8)}, []int{39})
+		case 1:
+			return ansi.MakeCode([]int{1}, []int{22})
+		default:
+			return ansi.MakeCode([]int{int(b % 10)}, []int{0})
+		}
+	}
+	switch b % 3 {
+	case 0:
+		return ansi.MakeCode([]int{30 + int(b%8), 4}, []int{39, 24})
+	case 1:
+		return ansi.MakeCode([]int{1, 40 + int(b%8)}, []int{22, 49})
+	default:
+		return ansi.MakeCode([]int{int(b)}, []int{0})
+	}
+}
+
+func runWriterColour(o *hlib.Out, kind string, fam, width, start int, chunks [][]byte) {
+	op := fmt.Sprintf("%s %d %d %d %s", kind, fam, width, start, chunksText(chunks))
+	obs, _ := hlib.Catch(func() string {
+		var bb bytes.Buffer
+		var w interface{ Write([]byte) (int, error) }
+		if kind == "hexwc" {
+			w = hexpairwriter.New(&bb, width, start, func(b byte) string { return byteCode(fam, b).Wrap(hexpairwriter.Pair(b)) })
+		} else {
+			w = asciiwriter.New(&bb, width, start, func(b byte) string { return byteCode(fam, b).Wrap(asciiwriter.SafeASCII(b)) })
+		}
+		for _, c := range chunks {
+			if _, err := w.Write(c); err != nil {
+				return "err:" + err.Error()
+			}
+		}
+		return hlib.Hex(bb.Bytes())
+	})
+	if strings.HasPrefix(obs, "panic:") {
+		obs = "panic"
+	}
+	o.Case(op, obs)
+	o.Stat("writer_colour", 1)
+}
+
+func randAnsiString(r *hlib.Rand) string {
+	var sb strings.Builder
+	n := r.Intn(14)
+	for i := 0; i < n; i++ {
+		switch r.Intn(8) {
+		case 0:
+			sb.WriteString(byteCode(r.Intn(2), byte(r.Intn(256))).SetString)
+		case 1:
+			sb.WriteString(byteCode(r.Intn(2), byte(r.Intn(256))).ResetString)
+		case 2:
+			sb.WriteString(byteCode(r.Intn(2), byte(r.Intn(256))).Wrap(string(rune(33 + r.Intn(90)))))
+		case 3:
+			sb.WriteString([]string{"\x1b", "\x1b[", "\x1b[3", "m", "[", ";", "\x1b[m", "\x1bm"}[r.Intn(8)])
+		default:
+			for k := r.Intn(4); k >= 0; k-- {
+				sb.WriteByte(byte(32 + r.Intn(95)))
+			}
+		}
+	}
+	return sb.String()
+}
+
+func runAnsi(o *hlib.Out, stop int, s string) {
+	obs, _ := hlib.Catch(func() string {
+		return fmt.Sprintf("%d %s", ansi.Len(s), hlib.Hex([]byte(ansi.Slice(s, 0, stop))))
+	})
+	o.Case(fmt.Sprintf("ansi %d %s", stop, hlib.Hex([]byte(s))), obs)
+	o.Stat("ansi_cases", 1)
+}
+
+func genColour(o *hlib.Out, r *hlib.Rand, thorough bool) {
+	n := 600
+	if thorough {
+		n = 12000
+	}
+	for i := 0; i < n; i++ {
+		w := r.Range(1, 64)
+		if r.Bool() {
+			w = r.Range(1, 8)
+		}
+		s := r.Intn(w)
+		b := r.Bytes(r.Intn(3*w + 2))
+		cs := randomChunks(r, b)
+		fam := 0
+		if r.Intn(4) == 0 {
+			fam = 1
+		}
+		runWriterColour(o, "hexwc", fam, w, s, cs)
+		runWriterColour(o, "asciiwc", fam, w, s, cs)
+		runAnsi(o, r.Range(1, 12), randAnsiString(r))
+	}
+	all := make([]byte, 256)
+	for i := range all {
+		all[i] = byte(i)
+	}
+	runWriterColour(o, "hexwc", 0, 16, 0, [][]byte{all})
+	runWriterColour(o, "asciiwc", 0, 16, 0, [][]byte{all})
+	runWriterColour(o, "hexwc", 1, 16, 0, [][]byte{all})
 }
 
 func replayWriters(o *hlib.Out, r *hlib.Rand, ws []string) bool {
@@ -366,6 +519,12 @@ func replayWriters(o *hlib.Out, r *hlib.Rand, ws []string) bool {
 		runBits(o, atoi(ws[1]), n)
 	case ws[0] == "range" && len(ws) == 4:
 		runRange(o, atoi(ws[1]), atoi64(ws[2]), atoi64(ws[3]))
+	case (ws[0] == "hexwc" || ws[0] == "asciiwc") && len(ws) == 5:
+		runWriterColour(o, ws[0], atoi(ws[1]), atoi(ws[2]), atoi(ws[3]), parseChunks(ws[4]))
+	case ws[0] == "ansi" && len(ws) == 3:
+		runAnsi(o, atoi(ws[1]), string(hlib.UnHex(ws[2])))
+	case ws[0] == "digitsrle" && len(ws) == 3:
+		runDigitsRLE(o, atoi(ws[1]), atoi64(ws[2]))
 	case ws[0] == "digits" && len(ws) == 3:
 		runDigits(o, atoi(ws[1]), atoi64(ws[2]))
 	default:
